@@ -3,7 +3,8 @@
   runtime/luacont.go, built on the REGENERATED comparisons of runtime/comp.go) and
   Spec.For (manual §3.3.5: forlimit, precomputed iteration count, no wrap-around).
   `numWF l` (every float is a genuine double) holds for everything `F64.decode` produces
-  (Props.C02.decode_wf).
+  (Props.C02.decode_wf).  As of /repo 5163798 (limit tests `not (v <= limit)`) the value theorems hold
+  for every numeric triple, NaN included.
 -/
 import GoluaVerif.Model.For
 import GoluaVerif.Spec.For
@@ -13,31 +14,30 @@ import GoluaVerif.Props.C02_F64
 namespace GoluaVerif.Props.C16
 open GoluaVerif GoluaVerif.Spec GoluaVerif.Spec.For GoluaVerif.Proofs GoluaVerif.Proofs.ForLoop
 
-/-- INTEGER LOOP, VALUES.  For every int64 start, every int64 step ≠ 0 and every numeric limit that is
-    not NaN (integers, finite floats, floats beyond the int64 range, ±∞) the compiled loop
-    (prepfor, then advfor after each iteration) lets the body see exactly the manual's sequence,
-    whatever the number `cap` of iterations observed.
-    PARTIAL: the limit NaN is excluded — there the statement is false of the current code, see
-    `int_loop_values_nan_counterexample`. -/
-theorem int_loop_values_partial (cap : Nat) (s d : I64) (l : Num)
-    (hd : d ≠ 0#64) (hwf : numWF l = true) (hn : l.isNaN = false) :
+/-- INTEGER LOOP, VALUES.  For every int64 start, every int64 step ≠ 0 and EVERY numeric limit — integers,
+    finite floats, floats beyond the int64 range, ±∞ and NaN — the compiled loop (prepfor, then advfor
+    after each iteration) lets the body see exactly the manual's sequence, whatever the number `cap` of
+    iterations observed.  The only hypothesis, `numWF l`, is not a restriction of the statement: it says
+    that a float limit is a genuine double, which holds for every value `F64.decode` produces
+    (Props.C02.decode_wf). -/
+theorem int_loop_values (cap : Nat) (s d : I64) (l : Num) (hd : d ≠ 0#64) (hwf : numWF l = true) :
     Model.For.run cap (.num (.int s)) (.num l) (.num (.int d)) =
       Spec.For.run false cap (.num (.int s)) (.num l) (.num (.int d)) := by
   have h1 : Model.For.run cap (.num (.int s)) (.num l) (.num (.int d)) = .values (intValues cap s l d) := by
     unfold Model.For.run
-    rw [prepfor_int s d l hd hwf hn]
+    rw [prepfor_int s d l hd hwf]
     simp only
-    rw [loop_int s d l hd hwf hn]
+    rw [loop_int s d l hd hwf]
   rw [h1]
   simp only [Spec.For.run, Val.toNum?, hd, if_false]
 
-example : numWF (.flt (.inf false)) = true ∧ (Num.flt (.inf false)).isNaN = false ∧ (5#64 : I64) ≠ 0#64 := by decide
+example : numWF (.flt .nan) = true ∧ numWF (.flt (.inf false)) = true ∧ (5#64 : I64) ≠ 0#64 := by decide
 
-/-- the same statement is false for a NaN limit: golua iterates (until the control variable overflows),
-    the manual's loop does not run (`1 <= NaN` is false).  Witness `for i = 1, 0/0 do … end`. -/
-theorem int_loop_values_nan_counterexample :
-    Model.For.run 3 (.num (.int 1#64)) (.num (.flt .nan)) (.num (.int 1#64)) =
-      .values [.int 1#64, .int 2#64, .int 3#64] ∧
+/-- regression (fixed in /repo 5163798): with a NaN limit neither the code nor the manual's loop runs,
+    in either direction.  Before the fix `for i = 1, 0/0 do … end` iterated until overflow. -/
+example :
+    Model.For.run 3 (.num (.int 1#64)) (.num (.flt .nan)) (.num (.int 1#64)) = .values [] ∧
+    Model.For.run 3 (.num (.int 1#64)) (.num (.flt .nan)) (.num (.int (BitVec.ofInt 64 (-1)))) = .values [] ∧
     Spec.For.run false 3 (.num (.int 1#64)) (.num (.flt .nan)) (.num (.int 1#64)) = .values [] := by
   decide +kernel
 
@@ -45,15 +45,14 @@ theorem int_loop_values_nan_counterexample :
     start register holds the k-th value of the progression after k executions of advfor for every
     k below `count s l d`, and it is nil (the loop has ended) after exactly `count s l d` of them.
     `count` is the manual's precomputed iteration count; it is < 2^64. -/
-theorem int_loop_terminates (s d : I64) (l : Num)
-    (hd : d ≠ 0#64) (hwf : numWF l = true) (hn : l.isNaN = false) :
+theorem int_loop_terminates (s d : I64) (l : Num) (hd : d ≠ 0#64) (hwf : numWF l = true) :
     ∃ r0, Model.For.prepfor (.num (.int s)) (.num l) (.num (.int d)) = .ok r0 l (.int d) ∧
       (∀ k, k < count s l d → Model.For.iter k r0 l (.int d) = some (.int (value s d k))) ∧
       Model.For.iter (count s l d) r0 l (.int d) = none := by
-  refine ⟨_, prepfor_int s d l hd hwf hn, ?_, ?_⟩
+  refine ⟨_, prepfor_int s d l hd hwf, ?_, ?_⟩
   · intro k hk
-    rw [iter_int s d l hd hwf hn, if_pos hk]
-  · rw [iter_int s d l hd hwf hn, if_neg (Nat.lt_irrefl _)]
+    rw [iter_int s d l hd hwf, if_pos hk]
+  · rw [iter_int s d l hd hwf, if_neg (Nat.lt_irrefl _)]
 
 /-- the iteration count is at most 2^64 (reached by `for i = math.mininteger, math.maxinteger`) -/
 theorem count_le_two64 (s d : I64) (l : Num) (hd : d ≠ 0#64) : count s l d ≤ 2 ^ 64 := by
@@ -78,11 +77,15 @@ theorem count_le_two64 (s d : I64) (l : Num) (hd : d ≠ 0#64) : count s l d ≤
 
 /-- NO WRAP-AROUND: every value the loop produces is the mathematical `s + i·d` (computed without
     overflow) and it does not pass the limit. -/
-theorem no_wraparound (s d : I64) (l : Num) (hd : d ≠ 0#64) (hn : l.isNaN = false)
+theorem no_wraparound (s d : I64) (l : Num) (hd : d ≠ 0#64)
     (i : Nat) (hi : i < count s l d) :
     (value s d i).toInt = s.toInt + (i : Int) * d.toInt ∧
     (0 < d.toInt → Num.le (.int (value s d i)) l = true) ∧
     (d.toInt < 0 → Num.le l (.int (value s d i)) = true) := by
+  have hn : l.isNaN = false := by
+    cases hh : l.isNaN with
+    | false => rfl
+    | true => rw [count_nan s d l hh] at hi; omega
   have hdz := toInt_ne_zero hd
   have hs := toInt_range s
   have hS := scale_pos_int
@@ -157,7 +160,11 @@ theorem no_wraparound (s d : I64) (l : Num) (hd : d ≠ 0#64) (hn : l.isNaN = fa
         rw [Int.neg_mul] at h8
         omega
 
-/-- THE COUNT IS NOT TOO SMALL: the term after the last one passes the limit (exact comparison of the
+/-- nothing is `<=` NaN: a NaN limit gives no iteration -/
+theorem count_nan_limit (s d : I64) (l : Num) (hn : l.isNaN = true) : count s l d = 0 :=
+  count_nan s d l hn
+
+/-- THE COUNT IS NOT TOO SMALL (for a limit that is a number; for NaN see `count_nan_limit`): the term after the last one passes the limit (exact comparison of the
     mathematical values, in units of 2^-1074) or leaves the int64 range ("the loop ends in case of an
     overflow").  Together with `no_wraparound` this pins `count` to the manual's sequence. -/
 theorem count_maximal (s d : I64) (l : Num) (hd : d ≠ 0#64) (hn : l.isNaN = false) :
@@ -230,17 +237,16 @@ theorem count_maximal (s d : I64) (l : Num) (hd : d ≠ 0#64) (hn : l.isNaN = fa
 example : (3 : Nat) < count 1#64 (.int 10#64) 2#64 := by decide +kernel
 
 /-- FLOAT LOOP, VALUES.  When the initial value or the step is a float (the other one, if an integer, is
-    converted), the compiled loop produces exactly the manual's sequence: repeated float addition,
-    continuing while `v <= limit` (`limit <= v` for a negative step), compared exactly with the limit; a
-    zero step is an error.  The overflow test of advfor (`next < start`) never fires because float
-    addition is monotone (`fadd_mono_pos/neg`, from the exact rounding model).
-    PARTIAL: excluded are a NaN among the three values and `±∞` start with `∓∞` step (the sum is NaN):
-    there the current code never leaves the loop, see `float_loop_nan_counterexample`. -/
-theorem float_loop_values_partial (cap : Nat) (a l d : Num)
+    converted), the compiled loop produces exactly the manual's sequence for EVERY triple of numbers,
+    NaN and ±∞ included: repeated float addition, continuing while `v <= limit` (`limit <= v` for a
+    non-positive step), compared exactly with the limit; a zero step is an error.  The overflow test of
+    advfor (`next < start`) never fires because float addition is monotone (`fadd_mono_pos/neg`, from the
+    exact rounding model).  Hypotheses `numWF`: the floats are genuine doubles (see `int_loop_values`).
+    The limit is compared exactly (reading `convLimit = false`; see `float_limit_readings_agree` for when
+    the manual's "converted to floats" reading coincides — the manual is open there). -/
+theorem float_loop_values (cap : Nat) (a l d : Num)
     (hfloat : ∀ s t, ¬ (a = .int s ∧ d = .int t))
-    (hwa : numWF a = true) (hwl : numWF l = true) (hwd : numWF d = true)
-    (hna : a.isNaN = false) (hnl : l.isNaN = false) (hnd : d.isNaN = false)
-    (hc : ForFloat.compatible (toFlt a) (toFlt d)) :
+    (hwa : numWF a = true) (hwl : numWF l = true) (hwd : numWF d = true) :
     Model.For.run cap (.num a) (.num l) (.num d) = Spec.For.run false cap (.num a) (.num l) (.num d) := by
   cases a with
   | int s =>
@@ -248,21 +254,31 @@ theorem float_loop_values_partial (cap : Nat) (a l d : Num)
     | int t => exact absurd ⟨rfl, rfl⟩ (hfloat s t)
     | flt fd =>
       rw [ForFloat.model_run_unified cap _ l _ (F64.ofI64 s) fd rfl,
-        ForFloat.run_float cap (F64.ofI64 s) fd l rfl (Props.C02.ofI64_wf s) hwd hnd hc hnl hwl]
+        ForFloat.run_float cap (F64.ofI64 s) fd l (Props.C02.ofI64_wf s) hwd hwl]
       rfl
   | flt fs =>
     cases d with
     | int t =>
       rw [ForFloat.model_run_unified cap _ l _ fs (F64.ofI64 t) rfl,
-        ForFloat.run_float cap fs (F64.ofI64 t) l hna hwa (Props.C02.ofI64_wf t) rfl hc hnl hwl]
+        ForFloat.run_float cap fs (F64.ofI64 t) l hwa (Props.C02.ofI64_wf t) hwl]
       rfl
     | flt fd =>
       rw [ForFloat.model_run_unified cap _ l _ fs fd rfl,
-        ForFloat.run_float cap fs fd l hna hwa hwd hnd hc hnl hwl]
+        ForFloat.run_float cap fs fd l hwa hwd hwl]
       rfl
 
-example : (∀ s t, ¬ ((Num.flt (.inf true)) = .int s ∧ (Num.int 3#64) = .int t)) ∧
-    ForFloat.compatible (toFlt (.flt (.inf true))) (toFlt (.flt (.inf true))) :=
+/-- ALL NUMERIC TRIPLES: integer loop, float loop and zero step together -/
+theorem for_loop_values (cap : Nat) (a l d : Num)
+    (hwa : numWF a = true) (hwl : numWF l = true) (hwd : numWF d = true) :
+    Model.For.run cap (.num a) (.num l) (.num d) = Spec.For.run false cap (.num a) (.num l) (.num d) := by
+  by_cases hint : ∃ s t, a = .int s ∧ d = .int t
+  · obtain ⟨s, t, rfl, rfl⟩ := hint
+    by_cases ht : t = 0#64
+    · subst ht; rfl
+    · exact int_loop_values cap s t l ht hwl
+  · exact float_loop_values cap a l d (fun s t h => hint ⟨s, t, h⟩) hwa hwl hwd
+
+example : (∀ s t, ¬ ((Num.flt .nan) = .int s ∧ (Num.int 3#64) = .int t)) ∧ numWF (.flt .nan) = true :=
   ⟨fun s t h => Num.noConfusion h.1, rfl⟩
 
 /-- The two readings of the limit of a float loop (the manual: "the three values are converted to
@@ -309,13 +325,13 @@ theorem float_limit_readings_agree (cap : Nat) (a d : Val) (l : Num)
     | some d' =>
       cases a' <;> cases d' <;> simp only [hfv, if_true, Bool.false_eq_true, if_false]
 
-/-- with a NaN limit the float loop of the current code never ends (capped here at 3 values), the
-    manual's loop does not run.  Witness `for i = 1.0, 0/0 do … end`. -/
-theorem float_loop_nan_counterexample :
-    (match Model.For.run 3 (.num (.flt (F64.ofI64 1#64))) (.num (.flt .nan)) (.num (.int 1#64)) with
-     | .values vs => vs.length
-     | .error => 0) = 3 ∧
-    Spec.For.run false 3 (.num (.flt (F64.ofI64 1#64))) (.num (.flt .nan)) (.num (.int 1#64)) = .values [] := by
+/-- regression (fixed in /repo 5163798): a NaN limit, a NaN initial value or ∞ + (−∞) end the float loop
+    at once / after the first value, for the code as for the manual.  Before the fix these loops never ended. -/
+example :
+    Model.For.run 3 (.num (.flt (F64.ofI64 1#64))) (.num (.flt .nan)) (.num (.int 1#64)) = .values [] ∧
+    Model.For.run 3 (.num (.flt .nan)) (.num (.int 3#64)) (.num (.int 1#64)) = .values [] ∧
+    Model.For.run 3 (.num (.flt (.inf true))) (.num (.int 0#64)) (.num (.flt (.inf false))) =
+      .values [.flt (.inf true)] := by
   decide +kernel
 
 /-- a zero step is an error whatever the other two values are, in an integer loop and in a float loop
